@@ -287,18 +287,17 @@ pub fn run_domain(ctx: &mut Ctx) {
                     }
                 }
                 let lag = dom.lagrange_from_vec(a.clone());
-                for r in -3i32..=3 {
+                for r in [-3i32, -2, -1, 0, 1, 2, 3, n as i32, n as i32 + 1, -(n as i32) - 1, i32::MIN, i32::MAX] {
                     let res = catch(|| lag.rotate(Rotation(r)).to_vec());
                     ctx.case("polyrot", true, &format!("polyrot {r} {}", hexl(&a)), &opt_hexl(&res));
-                    match &res {
-                        Ok(rv) => {
-                            // rotated polynomial evaluates like p(omega^r X): rv[i] = a[i + r mod n]
-                            if (0..n).any(|i| rv[i] != a[(i as i64 + r as i64).rem_euclid(n as i64) as usize]) {
-                                ctx.oracle_fail(&format!("domain:rotate:k{k}"), "Polynomial::rotate is not the index shift by r",
-                                    json!({"k": k, "r": r, "values": hexl(&a)}));
-                            }
-                        }
-                        Err(_) => ctx.count("note:polyrot-beyond-n-panics"),
+                    // rotated polynomial evaluates like p(omega^r X): rv[i] = a[i + r mod n]
+                    // (|r| > n used to panic; fixed in /repo, regression case kept)
+                    let ok = matches!(&res, Ok(rv) if (0..n).all(|i| rv[i] == a[(i as i64 + r as i64).rem_euclid(n as i64) as usize]));
+                    if !ok {
+                        ctx.oracle_fail(
+                            &if (r as i64).unsigned_abs() > n as u64 { "polynomial-rotate:beyond-n".to_string() } else { format!("domain:rotate:k{k}") },
+                            "Polynomial::rotate is not the index shift by r (mod n)",
+                            json!({"k": k, "r": r, "values": hexl(&a)}));
                     }
                 }
                 // l_i
@@ -333,8 +332,15 @@ pub fn run_domain(ctx: &mut Ctx) {
                 let xd = w.pow_vartime([2u64]);
                 let got = dom.l_i_range(xd, Fq::ONE, -3..=3);
                 ctx.case("domli-x-in-domain", true, &format!("domli {j} {k} {} 0x1 -3,-2,-1,0,1,2,3", fe_hex(&xd)), &hexl(&got));
-                if got.iter().all(|v| *v == Fq::ZERO) {
-                    ctx.count("note:l_i_range-at-domain-point-returns-all-zero");
+                // the Lagrange basis at a domain point is the Kronecker delta (known finding:
+                // the barycentric formula returns 0 everywhere)
+                let ok = (-3i32..=3).zip(got.iter()).all(|(r, v)| {
+                    let hit = (r as i64 - 2).rem_euclid(n as i64) == 0;
+                    *v == if hit { Fq::ONE } else { Fq::ZERO }
+                });
+                if !ok {
+                    ctx.oracle_fail("l_i_range:x-in-domain", "l_i_range evaluated at a domain point does not return the Kronecker delta",
+                        json!({"j": j, "k": k, "x": "omega^2", "got": hexl(&got)}));
                 }
             }
         }
